@@ -13,7 +13,7 @@
    field. No proofs here. *)
 From Coq Require Import String List NArith ZArith Bool.
 From J5V.lib Require Import Outcome.
-From J5V.model Require Import RulesDecl RulesWrite RulesRead RulesNested RulesSpec Validate RulesSpecDec.
+From J5V.model Require Import RulesDecl RulesWrite RulesRead RulesNested RulesSpec Validate RulesSpecDec RulesOneof.
 Import ListNotations.
 
 Inductive mvalue := MV (fvs : list fvalue) (inner : list (list mvalue)).
@@ -25,6 +25,16 @@ Definition held (fv : fvalue) : nat :=
   | FOne _ => 1
   | FMany vs => length vs
   | FMap kvs => length kvs
+  end.
+
+(* the compiled tree as the validator sees it: the fields of a oneof message are members of
+   a proto oneof and have presence (RulesOneof.as_member) *)
+Fixpoint c12_view (m : mtree) : mtree :=
+  match m with
+  | MT o nested =>
+      MT (RO (ro_name o) (ro_comment o) (ro_msgopt o)
+             (match ro_msgopt o with Some ROneof => map as_member (ro_fields o) | _ => ro_fields o end))
+         (map c12_view nested)
   end.
 
 Section Validator.
@@ -67,8 +77,12 @@ Variable env : enum_env.
    does, recursively, every message of an inline type that occurs in it *)
 Fixpoint rule_tree (s : nschema) (v : mvalue) : Prop :=
   match s, v with
-  | NS _ _ _ fields, MV fvs inner =>
-      rule_obj pat_sem env (map nf_prop fields) fvs /\
+  | NS k _ _ fields, MV fvs inner =>
+      (* an object: every property on its own; a oneof: every option as a member (RulesOneof.member_sem) *)
+      match k with
+      | RObject => rule_obj pat_sem env (map nf_prop fields) fvs
+      | ROneof => member_obj pat_sem env (map nf_prop fields) fvs
+      end /\
       (fix go (fs : list nfield) (is : list (list mvalue)) : Prop :=
          match fs with
          | [] => match is with [] => True | _ => False end
@@ -91,8 +105,11 @@ Variable env : enum_env.
 
 Fixpoint rule_treeb (s : nschema) (v : mvalue) : bool :=
   match s, v with
-  | NS _ _ _ fields, MV fvs inner =>
-      rule_objb re_match env (map nf_prop fields) fvs &&
+  | NS k _ _ fields, MV fvs inner =>
+      match k with
+      | RObject => rule_objb re_match env (map nf_prop fields) fvs
+      | ROneof => member_objb re_match env (map nf_prop fields) fvs
+      end &&
       (fix go (fs : list nfield) (is : list (list mvalue)) : bool :=
          match fs with
          | [] => match is with [] => true | _ => false end
